@@ -204,8 +204,8 @@ def run_probe(a):
 
 
 def run_typebatch(a):
-    cli, types, mode = a
-    files = c05.build_batch(types)
+    cli, types, mode = a[:3]
+    files = c05.build_batch(types, spelling=a[3] if len(a) > 3 else None)
     g = proj.generate(cli, files, mode=mode, tag="c01t")
     try:
         if g.run.timed_out:
@@ -295,14 +295,18 @@ def run(tier):
     tjobs = []
     for mode in ("none", "zod"):
         for k in range(0, len(types), c05.BATCH):
-            tjobs.append((cli, types[k:k + c05.BATCH], mode))
+            tjobs.append((cli, types[k:k + c05.BATCH], mode, None))
+            # the same expressions written through paths (std::vec::Vec<..>, crate::Named): '::' must never reach the output
+            tjobs.append((cli, types[k:k + c05.BATCH], mode, rg.SPELLINGS[(k // c05.BATCH) % len(rg.SPELLINGS)] if tier == "quick" else "both"))
+            if tier != "quick":
+                tjobs.append((cli, types[k:k + c05.BATCH], mode, rg.SPELLINGS[(k // c05.BATCH) % 2]))
     tres = common.pmap(run_typebatch, tjobs)
     for (job, r) in zip(tjobs, tres):
         if "inconclusive" in r:
             v.inconclusive.append("type batch hit watchdog")
             continue
         for (i, t) in job[1]:
-            v.case(("type", rg.rust(t), job[2]), nontrivial=rg.depth(t) >= 1)
+            v.case(("type", rg.rust(t), job[2], job[3]), nontrivial=rg.depth(t) >= 1)
         if "blocked" in r:
             v.blocked += len(job[1])
             continue
@@ -311,11 +315,11 @@ def run(tier):
         v.count("declarations_parsed", r["items"])
         seen = set()
         for (f, kind, detail) in r["faults"]:
-            sig = "C01 type-expression %s %s" % (f, kind)
+            sig = "C01 type-expression %s %s%s" % (f, kind, " spelling=path-qualified" if job[3] else "")
             if sig in seen:
                 continue
             seen.add(sig)
-            v.violation(sig, "%s mode: %s" % (job[2], detail), proj.witness_of(c05.build_batch(job[1][:1]), job[2], extra={"note": "first type of the batch shown; see detail line"}))
+            v.violation(sig, "%s mode: %s" % (job[2], detail), proj.witness_of(c05.build_batch(job[1][:1], spelling=job[3]), job[2], extra={"note": "first type of the batch shown; see detail line", "spelling": job[3]}))
     ijobs = [(cli, i, common.seed() * 1009 + i) for i in range(24 if tier == "quick" else 1500)]
     for (job, r) in zip(ijobs, common.pmap(run_inplace, ijobs)):
         v.case(("in-place", job[2]), nontrivial=True)
